@@ -56,6 +56,7 @@ type c08LawCase struct {
 
 func c08LawRun(c *c08LawCase) (exp, act string, ok bool) {
 	im := h.NewImpl()
+	im.Timeout = 5 * time.Minute // a resource guard, not an oracle: 500 terms are 250000 comparisons, seconds on a loaded machine
 	q := "T = [" + strings.Join(c.Terms, ", ") + "], findall(O, (member(A, T), member(B, T), compare(O, A, B)), M)."
 	o, ans := im.QueryTerms(q, []string{"M"}, 1)
 	if len(ans) != 1 {
@@ -337,7 +338,7 @@ func c08NumberWork(w *h.W) {
 			continue
 		}
 		c := &c08LawCase{Law: true, Terms: s}
-		w.GuardFor(c, 5*time.Minute)
+		w.GuardFor(c, 6*time.Minute)
 		exp, act, ok := c08LawRun(c)
 		w.Unguard()
 		w.Eval(1)
@@ -425,7 +426,7 @@ func c08AtomWork(w *h.W) {
 			continue
 		}
 		c := &c08LawCase{Law: true, Terms: s}
-		w.GuardFor(c, 5*time.Minute)
+		w.GuardFor(c, 6*time.Minute)
 		exp, act, ok := c08LawRun(c)
 		w.Unguard()
 		w.Eval(1)
